@@ -216,6 +216,25 @@ func (p *c19) build(seed uint64, tier string) []C19Scenario {
 					s.Client.Pass = "wrong-password"
 					add(s)
 				}
+				if op == "dial" {
+					// a second DialWithContext on a Client that is still connected (no Close in
+					// between): whatever the Client does about the earlier connection — whose
+					// QUIT is refused, lost or garbled here — a connection opened by a call that
+					// returns an error must have been closed
+					for _, q := range []refsmtpd.Action{{Code: 421, Text: "closing"}, {Code: 500, Text: "what?"}, {Kind: "drop"}, {Kind: "garbage"}} {
+						for _, second := range []*refsmtpd.Rule{nil, {Verb: "EHLO", Nth: 1, Conn: 2, Action: refsmtpd.Action{Code: 421, Text: "busy"}}} {
+							s := base()
+							s.Op = "redial"
+							s.Step = "redial:QUIT-of-first"
+							s.Server.Rules = []refsmtpd.Rule{{Verb: "QUIT", Nth: 1, Conn: 1, Action: q}}
+							if second != nil {
+								s.Step += "+EHLO-of-second"
+								s.Server.Rules = append(s.Server.Rules, *second)
+							}
+							add(s)
+						}
+					}
+				}
 				if op == "dialandsend" {
 					// client-side write failure / reset in the middle of the content
 					s := base()
@@ -248,6 +267,7 @@ func (p *c19) Exec(t *testing.T, scAny any) Outcome {
 	var env *NetEnv
 	var call *CallRec
 	var quitSeen bool
+	before := 0 // connections opened before the judged call
 	res := RunSim(t, sc.Sched, sim.Policy{Kind: "random"}, 0, time.Hour, func(k *sim.Kernel) (func(), func()) {
 		env = &NetEnv{K: k, Srv: refsmtpd.New(k, sc.Server, TLSMat), Faults: []sim.ConnFaults{sc.Conn}, Host: sc.Client.host(), DialFail: sc.DialFail}
 		return func() {
@@ -261,6 +281,15 @@ func (p *c19) Exec(t *testing.T, scAny any) Outcome {
 				msgs = append(msgs, BuildMsg(ms, BuildOpts{SMIMEKeys: SMIME}))
 			}
 			switch sc.Op {
+			case "redial":
+				if err := c.DialWithContext(context.Background()); err != nil {
+					return // the first dial is not the judged one
+				}
+				before = len(env.Pipes)
+				call = env.Call("DialWithContext", func() error { return c.DialWithContext(context.Background()) })
+				if call.Err == nil && call.Panic == nil {
+					_ = c.Close()
+				}
 			case "dial":
 				call = env.Call("DialWithContext", func() error { return c.DialWithContext(context.Background()) })
 				if call.Err == nil && call.Panic == nil {
@@ -284,6 +313,10 @@ func (p *c19) Exec(t *testing.T, scAny any) Outcome {
 	}
 	if res.BubbleErr != "" {
 		out.Infra = "bubble: " + res.BubbleErr
+		return out
+	}
+	if call == nil && sc.Op == "redial" {
+		out.stat("not-judged.first-dial-failed", 1)
 		return out
 	}
 	if call == nil {
@@ -321,7 +354,7 @@ func (p *c19) Exec(t *testing.T, scAny any) Outcome {
 		if opened > 0 {
 			out.stat("fault.fired.failed-after-open", 1)
 		}
-		for _, pp := range env.Pipes {
+		for _, pp := range env.Pipes[before:] {
 			if !pp.Client.Closed() || pp.Client.CloseStep > call.EndStep {
 				out.violate("C19:leak:"+sc.Op+":step="+sc.Step,
 					"%s returned error %q after the connection was opened, but Close was never called on it (policy=%s auth=%s rules=%s)",
